@@ -260,6 +260,8 @@ def run(ctx):
 
 def replay(ctx, obj):
     c = dict(obj["replay"])
+    if "unit" in c:
+        return c13_tie.replay_unit(ctx, obj)
     if "text" not in c:
         return run(ctx)
     c["scratch"] = ctx.scratch
